@@ -48,6 +48,9 @@ pub struct Ctx {
     pub counters: BTreeMap<String, u64>,
     pub sets: BTreeMap<String, HashSet<u64>>,
     pub samples: Vec<String>,
+    /// a few individual evaluations (sub-cases) written out in full
+    pub details: Vec<String>,
+    pub detail_n: u64,
     pub violations: BTreeMap<String, Viol>,
     pub cursor: Option<File>,
     pub viol_log: Option<File>,
@@ -115,6 +118,24 @@ impl Ctx {
     /// True if the enumeration can stop early (only/--max reached).
     pub fn done(&self) -> bool {
         self.stop || matches!(self.only, Some(o) if self.next_idx > o)
+    }
+
+    /// Offer one individual evaluation as a written-out sample (a handful are kept per process).
+    #[inline]
+    pub fn detail(&mut self, f: impl FnOnce() -> String) {
+        // reservoir sample of 6 over everything offered
+        self.detail_n += 1;
+        const K: usize = 6;
+        if self.details.len() < K {
+            let d = f();
+            self.details.push(format!("case#{} {}", self.cur_idx, d));
+        } else {
+            let j = (hash_of(&(self.detail_n, self.seed, 77u8)) % self.detail_n) as usize;
+            if j < K {
+                let d = f();
+                self.details[j] = format!("case#{} {}", self.cur_idx, d);
+            }
+        }
     }
 
     /// Inner-loop thinning under Miri: true for one in `n` calls (always true in the other lanes).
@@ -203,7 +224,7 @@ impl Ctx {
             "prop": self.prop, "lane": self.lane, "shard": [self.shard.0, self.shard.1],
             "start": self.start, "enumerated": self.next_idx, "executed": self.executed,
             "distinct_hashes": d, "counters": counters, "sets": sets,
-            "samples": self.samples, "violations": viols,
+            "samples": self.samples, "details": self.details, "violations": viols,
         })
     }
 }
